@@ -11,6 +11,7 @@ package sftp
 
 import (
 	"context"
+	"errors"
 	"fmt"
 	"io"
 	"os"
@@ -92,6 +93,9 @@ func (o *vopen) ListAt(out []os.FileInfo, off int64) (int, error) {
 func (o *vopen) Close() error {
 	vsched.Env("open.close", o, false, nil)
 	o.Closes++
+	if o.h.CloseErr {
+		return errors.New("close failed (final flush)")
+	}
 	return nil
 }
 
@@ -101,11 +105,12 @@ func (o *vopen) TransferError(err error) {
 }
 
 type c11Handler struct {
-	data  map[string][]byte
-	objs  []*vopen
-	calls int // handler object calls (for "adds nothing to the call log")
-	cmds  int
-	Bad   []string
+	CloseErr bool // every object's Close reports an error (the handle must die all the same)
+	data     map[string][]byte
+	objs     []*vopen
+	calls    int // handler object calls (for "adds nothing to the call log")
+	cmds     int
+	Bad      []string
 }
 
 func (h *c11Handler) bad(f string, a ...any) { h.Bad = append(h.Bad, fmt.Sprintf(f, a...)) }
@@ -181,10 +186,11 @@ func c11Alphabet(maxH int, full bool) []c11Sym {
 }
 
 type c11Session struct {
-	server string
-	alloc  bool
-	syms   []c11Sym
-	cut    int // >=0: after the lock-step part, write only that many bytes of one more OPEN packet, then hang up
+	server   string
+	alloc    bool
+	closeErr bool
+	syms     []c11Sym
+	cut      int // >=0: after the lock-step part, write only that many bytes of one more OPEN packet, then hang up
 }
 
 func (s c11Session) String() string {
@@ -192,7 +198,7 @@ func (s c11Session) String() string {
 	for _, x := range s.syms {
 		p = append(p, x.String())
 	}
-	return fmt.Sprintf("%s alloc=%v [%s] cut=%d", s.server, s.alloc, strings.Join(p, " "), s.cut)
+	return fmt.Sprintf("%s alloc=%v closeerr=%v [%s] cut=%d", s.server, s.alloc, s.closeErr, strings.Join(p, " "), s.cut)
 }
 
 func fdCount() int {
@@ -220,7 +226,7 @@ func c11Scenario(s c11Session) explore.Scenario {
 			var serve func() error
 			nm := func(n string) string { return "/" + n }
 			if s.server == "rs" {
-				h = &c11Handler{data: map[string][]byte{"/f": []byte("abc"), "/g": []byte("xyz")}}
+				h = &c11Handler{data: map[string][]byte{"/f": []byte("abc"), "/g": []byte("xyz")}, CloseErr: s.closeErr}
 				var opts []RequestServerOption
 				if s.alloc {
 					opts = append(opts, WithRSAllocator())
@@ -354,7 +360,7 @@ func c11Scenario(s c11Session) explore.Scenario {
 					}
 				case "close", "closebogus":
 					if open[hd] {
-						if !isStatus || code != sshFxOk {
+						if !isStatus || (code != sshFxOk && !s.closeErr) {
 							bad = append(bad, fmt.Sprintf("close of open handle %q answered %s", hd, f))
 						}
 						delete(open, hd)
@@ -529,7 +535,7 @@ func init() {
 						total.Bound = fmt.Sprintf("deadline hit inside depth %d", d)
 						return
 					}
-					s := c11Session{server: server, alloc: c.Arg("alloc", "0") == "1", syms: seq, cut: cut}
+					s := c11Session{server: server, alloc: c.Arg("alloc", "0") == "1", syms: seq, cut: cut, closeErr: c.Arg("closeerr", "0") == "1"}
 					r := explore.Run(explore.Config{Prop: "C11", Strategy: "db", Bound: 0, Ctx: &sub}, c11Scenario(s))
 					total.Evaluations += r.Evaluations
 					total.States += r.States
@@ -590,6 +596,11 @@ func init() {
 				return []reg.Job{
 					j("rs sessions depth 5, 2 handles, full alphabet", "instr-w2", "rs", 5, 2, true, false, false, 900),
 					j("rs sessions depth 4, 3 handles, byte cuts", "instr-w2", "rs", 4, 3, false, true, true, 900),
+					func() reg.Job {
+						x := j("rs sessions depth 4, handler Close returns an error", "instr-w2", "rs", 4, 2, true, false, false, 600)
+						x.Args["closeerr"] = "1"
+						return x
+					}(),
 					j("os sessions depth 4, 2 handles, byte cuts", "instr-w2", "os", 4, 2, true, true, false, 900),
 					hj("rs hang-up with requests in flight W=2 db3", "instr-w2", "rs", 3, 600),
 					hj("rs hang-up with requests in flight W=8 db2", "instr", "rs", 2, 600),
@@ -599,6 +610,11 @@ func init() {
 			return []reg.Job{
 				j("rs sessions depth 4, 2 handles", "instr-w2", "rs", 4, 2, false, false, false, 100),
 				j("rs sessions depth 3, byte cuts, alloc", "instr-w2", "rs", 3, 2, false, true, true, 100),
+				func() reg.Job {
+					x := j("rs sessions depth 3, handler Close returns an error", "instr-w2", "rs", 3, 2, false, false, false, 100)
+					x.Args["closeerr"] = "1"
+					return x
+				}(),
 				j("os sessions depth 3, 2 handles, byte cuts", "instr-w2", "os", 3, 2, false, true, false, 100),
 				hj("rs hang-up with requests in flight W=2 db2", "instr-w2", "rs", 2, 100),
 				hj("os hang-up with requests in flight W=2 db2", "instr-w2", "os", 2, 100),
